@@ -36,6 +36,8 @@ h_readdata(void)
 	size_t wlen, readlen0, bodylen0;
 	int chunked0;
 	struct h_obs o;
+	size_t gi = nondet_size_t();
+	uint8_t b_old = 0, b_src = 0;
 	int rc;
 
 	H->res_head = h_maybe_obj(4);
@@ -50,11 +52,24 @@ h_readdata(void)
 	h_mk_ghost();
 	wlen = H->R->datalen - H->R->bufpos;
 	readlen0 = H->readlen; bodylen0 = H->res.bodylen; chunked0 = H->chunked;
+	/* ghost byte (G1): an old body byte, or the window byte that should become body byte gi */
+	if (gi < H->res.bodylen)
+		b_old = H->res.body[gi];
+	else if (gi - H->res.bodylen < wlen)
+		b_src = H->R->buf[H->R->bufpos + (gi - H->res.bodylen)];
 	o = h_before(H);
 
 	rc = callback_readdata(H, status);
 
 	H_CHECK_C08(o, rc);
+	if (!H_ENDED(o) && status == 0 && readlen0 > wlen) {
+		/* C09 (not all of the announced data has arrived: the step itself registers the next wait): the body grows by exactly the bytes taken from the window, in order; what was there is kept */
+		__CPROVER_assert(H->res.bodylen >= bodylen0 && H->res.bodylen - bodylen0 <= wlen, "C09: the body grows by window bytes only");
+		if (gi < bodylen0)
+			__CPROVER_assert(H->res.body[gi] == b_old, "C09: body bytes already stored are kept");
+		else if (gi < H->res.bodylen)
+			__CPROVER_assert(H->res.body[gi] == b_src, "C09: appended body bytes are the window bytes, in order");
+	}
 	VCOVER(status == 0 && !chunked0 && H_ENDED(o) && g_http_ncb == o.ncb + 1 && !g_http_cb_null && readlen0 > 0 && readlen0 <= wlen);	/* body complete */
 	VCOVER(status == 0 && !chunked0 && H_ENDED(o) && g_http_ncb == o.ncb + 1 && !g_http_cb_null && readlen0 == 0);			/* empty body */
 	VCOVER(status == 0 && !chunked0 && !H_ENDED(o) && readlen0 > wlen && wlen > 0);							/* partial: wait */
